@@ -77,6 +77,15 @@ def _law(ev, parse_of, print_of, toks_of, copy_of, obs_of):
             return "variant-not-accepted"
         k = "sci" if ev["ci"] else "st"
         return "" if p[k] == q[k] else "tree-differs"
+    if law == "sametextci":
+        q = P(ev["src2"], ev["cfg2"])
+        if p is None or q is None:
+            return "missing-parse"
+        if p["res"] != "ok" or q["res"] != "ok":
+            return "not-accepted"
+        if p["tree"] not in print_of or q["tree"] not in print_of:
+            return "missing-print"
+        return "" if print_of[p["tree"]]["tci"] == print_of[q["tree"]]["tci"] else "text-differs"
     if law == "reject":
         if p is None:
             return "missing-parse"
